@@ -36,6 +36,7 @@ import (
 type racer struct {
 	id      string
 	tag     bool // this racer's build-tag setting
+	opt     int  // this racer's optimisation level
 	abi     int
 	out     string
 	dir     string // gate directory
@@ -48,6 +49,7 @@ type racer struct {
 	pending string
 	log     bytes.Buffer
 	nops    int
+	lookups int // cache look-ups announced so far: how far the builder has got through the package list
 	faultAt int    // gate number at which this racer meets its fault (0: none)
 	fault   byte   // 'k', 't' or 'e'
 	faulted bool   // the fault was delivered
@@ -89,10 +91,10 @@ func (r *racer) start(w *world) error {
 	if r.ack, err = os.OpenFile(filepath.Join(r.dir, "ack"), os.O_RDWR, 0); err != nil {
 		return err
 	}
-	saveTag, saveAbi := w.tag, w.abi
-	w.tag, w.abi = r.tag, r.abi
+	saveTag, saveAbi, saveOpt := w.tag, w.abi, w.opt
+	w.tag, w.abi, w.opt = r.tag, r.abi, r.opt
 	args := w.buildArgs(r.out)
-	w.tag, w.abi = saveTag, saveAbi
+	w.tag, w.abi, w.opt = saveTag, saveAbi, saveOpt
 	os.Remove(r.out)
 	ctx, cancel := context.WithTimeout(context.Background(), 15*time.Minute)
 	r.cancel = cancel
@@ -122,6 +124,9 @@ func (r *racer) wait() {
 	case l := <-r.lines:
 		r.pending, r.state = l, 2
 		r.nops++
+		if f := strings.SplitN(l, " ", 3); len(f) == 3 && f[1] == "stat" && strings.HasSuffix(f[2], ".a") {
+			r.lookups++
+		}
 	case err := <-r.done:
 		r.state, r.err = 3, err
 		if ee, ok := err.(*exec.ExitError); ok && ee.ExitCode() == 137 {
@@ -180,11 +185,14 @@ func (w *world) race(si int, st Step, ch *sim.Choices, res *driver.Result, mix f
 	}
 	var rs []*racer
 	for i := 0; i < n; i++ {
-		r := &racer{id: string(rune('A' + i)), tag: w.tag, abi: w.abi,
+		r := &racer{id: string(rune('A' + i)), tag: w.tag, abi: w.abi, opt: w.opt,
 			out: filepath.Join(w.dir, fmt.Sprintf("prog-%c.out", 'a'+i)),
 			dir: filepath.Join(filepath.Dir(w.dir), fmt.Sprintf("gate-%c", 'a'+i))}
 		if i == 1 && st.Arg&1 != 0 {
 			r.tag = !r.tag // the second builder works under the other build-tag setting
+		}
+		if i == 1 && st.Arg&8 != 0 {
+			r.opt = (r.opt + 1) % 2 // ... or at another optimisation level (-O0 <-> default); from -Oz to the default level
 		}
 		rs = append(rs, r)
 	}
@@ -203,8 +211,15 @@ func (w *world) race(si int, st Step, ch *sim.Choices, res *driver.Result, mix f
 			v.faultAt = 1 + ch.Choose('a', 90)
 		}
 	}
-	// switch probability of the schedule: every gate / now and then / rarely
-	switchPct := []int{100, 30, 6}[ch.Choose('p', 3)]
+	// the schedule: switch at every gate / now and then / rarely / "aligned": keep the
+	// builders level on the package list (the one that has announced fewer cache
+	// look-ups goes first, level builders alternate), so that they work on the same
+	// cache entry at the same time
+	strat := ch.Choose('p', 4)
+	if st.Sched == "aligned" {
+		strat = 3
+	}
+	switchPct := []int{100, 30, 6, 100}[strat]
 	for _, r := range rs {
 		if err := r.start(w); err != nil {
 			return "infra-build-failed", "cannot start a gated llgo process: " + err.Error(), nil
@@ -234,7 +249,21 @@ func (w *world) race(si int, st Step, ch *sim.Choices, res *driver.Result, mix f
 		}
 		v := 0
 		if len(gated) > 1 {
-			v = ch.ChooseP('r', len(gated), float64(switchPct)/100)
+			switch {
+			case ch.Replaying():
+				v = ch.Choose('r', len(gated))
+			case strat == 3:
+				best := -1
+				for j, g := range gated {
+					if best < 0 || rs[g].lookups < rs[gated[best]].lookups || rs[g].lookups == rs[gated[best]].lookups && gated[best] == cur {
+						best = j
+					}
+				}
+				v = (best - pos + len(gated)) % len(gated)
+				ch.Record('r', v)
+			default:
+				v = ch.ChooseP('r', len(gated), float64(switchPct)/100)
+			}
 		}
 		pick = gated[(pos+v)%len(gated)]
 		if pick != cur {
@@ -299,8 +328,8 @@ func (w *world) race(si int, st Step, ch *sim.Choices, res *driver.Result, mix f
 				continue
 			}
 			// does a build on a clean cache succeed?  (the property's own oracle)
-			saveTag := w.tag
-			w.tag = r.tag
+			saveTag, saveOpt := w.tag, w.opt
+			w.tag, w.opt = r.tag, r.opt
 			cleanCache := filepath.Join(filepath.Dir(w.dir), "racecheck")
 			os.RemoveAll(cleanCache)
 			os.MkdirAll(cleanCache, 0o755)
@@ -309,7 +338,7 @@ func (w *world) race(si int, st Step, ch *sim.Choices, res *driver.Result, mix f
 			w.cache = cleanCache
 			r2 := w.build(0, 0, false)
 			w.cache = saveCache
-			w.tag = saveTag
+			w.tag, w.opt = saveTag, saveOpt
 			os.RemoveAll(cleanCache)
 			if r2.ok {
 				return "concurrent-build-fails", fmt.Sprintf("step %d: builder %s of %d concurrent builders on one cache directory failed (%s) without any injected fault of its own, although a build of the same sources on a clean cache succeeds; schedule %s", si, r.id, n, lastLines(r.log.String(), 2), clip(sched.String(), 300)), []string{"race"}
@@ -328,10 +357,10 @@ func (w *world) race(si int, st Step, ch *sim.Choices, res *driver.Result, mix f
 		if e != nil {
 			br.output += "\n[program failed: " + e.Error() + "]"
 		}
-		saveTag := w.tag
-		w.tag = r.tag
+		saveTag, saveOpt := w.tag, w.opt
+		w.tag, w.opt = r.tag, r.opt
 		mm := w.mismatch(br)
-		w.tag = saveTag
+		w.tag, w.opt = saveTag, saveOpt
 		mix(br.output)
 		if mm != "" {
 			return "stale-output-concurrent", fmt.Sprintf("step %d: the program built by builder %s of %d concurrent builders on one cache directory %s; schedule %s", si, r.id, n, mm, clip(sched.String(), 300)), []string{"race"}
